@@ -24,7 +24,8 @@ CHECKS = {
              'same stream, client/server/already-authenticated roles) TLC explores every partition into reads and checks '
              'that delivery is a function of the bytes received; every single cut, double cuts, byte-at-a-time and '
              'whole-stream reads are executed on real BasicDBusProtocol/DBusClientConnection objects and compared step by '
-             'step; streams of up to 1200 (5000 thorough) messages in one read are recorded and validated against the spec.',
+             'step; streams of up to 1200 (5000 thorough) messages in one read - and a stream holding a message of exactly the '
+             'maximum length, 2^27 bytes - are recorded and validated against the spec.',
         design_ref='DESIGN.md section 3 (C04)',
         note='Trusts: TLC, the in-memory transport, a stub authenticator (except instance "real"); message content itself is '
              'checked by C03.'),
@@ -64,7 +65,7 @@ CHECKS = {
         text='TLC enumerates messages (4 types x optional-field subsets x field orders x unknown field x flags x bodies x '
              'byte order x signature position); the implementation parses each reference encoding (compared with the '
              'model) and builds each constructible one (bytes judged by WellFormed/Recovered in TLC, serial counter '
-             'included); random messages both ways; parsed messages serialised again with the sender stamped (TraceResent); runs of '
+             'included); random messages both ways (foreign bytes with undefined flag bits judged against the reference parser, TraceParseAny); parsed messages serialised again with the sender stamped (TraceResent); runs of '
              'descriptor-carrying calls; names that already served in another role; size limit via overridable _maxMsgLen '
              '(real 128 MiB in thorough).',
         design_ref='DESIGN.md section 3 (C03)',
@@ -78,7 +79,10 @@ CHECKS = {
              'flip and length lie of a message corpus and grammar-directed hostile signatures under an interpreter call '
              'counter with abort, and grammar-directed sibling-container signatures and header count lies in a CPU-limited child '
              'process recording CPU time and peak allocation; the recorded work (calls, CPU, memory) is judged against the linear '
-             'bound by TLC; valid messages decoded in between must decode as before (isolation).',
+             'bound by TLC; valid messages decoded in between must decode as before (isolation), also when a hostile message was '
+             'the first of its signature; copy work, a scaling pair and header arrays repeating one field are measured; on a '
+             'real bus every hostile input (length lies, honest frames with malformed bodies) arrives on a connection of its own '
+             'and a third client\'s signal must still reach a real victim client.',
         design_ref='DESIGN.md section 3 (C05)',
         note='Trusts: call events (<= 40 per abstract step + 400), CPU time (<= 5 ms per step + 1 s) and tracemalloc peak '
              '(<= 4 KB per step + 4 MB) as measures of work; any Python exception counts as rejection.'),
